@@ -41,7 +41,8 @@ prop(
     level="proof",
     design_ref="DESIGN.md section 3, C12",
     groups=[(["./decoder"], r".*"), (["./pipeline"], r"^\(\*Pipeline\)\.In$")],
-    canaries=[("./decoder", "replay/C12/zz_replay_c12_test.go", "TestVerifReplayC12"), ("./decoder", "replay/C12/zz_json_cut_test.go", "TestVerifJsonCutEscapes"), ("./decoder", "replay/C12/zz_cri_partial_last_byte_test.go", "TestVerifCRIPartialKeepsLastByte")],
+    canaries=[("./decoder", "replay/C12/zz_replay_c12_test.go", "TestVerifReplayC12"), ("./decoder", "replay/C12/zz_json_cut_test.go", "TestVerifJsonCutEscapes"), ("./decoder", "replay/C12/zz_cri_partial_last_byte_test.go", "TestVerifCRIPartialKeepsLastByte"),
+              ("./decoder", "replay/C12/zz_json_cut_same_field_test.go", "TestVerifJsonCutSameField"), ("./decoder", "replay/C12/zz_json_cut_modifier_path_test.go", "TestVerifJsonCutModifierPath")],
     claim=(
         "Totality and frame of the hand-written decoders, for every byte string: DecodeCRI, DecodePostgres, nginx error (Decode, extractCustomFields, spaceSplit), "
         "syslog priority, RFC3164 (Decode, validateTimestamp), RFC5424 (Decode, validateTimestamp, parseStructuredData with its closures inlined and bytes.Reader modelled over its real fields, "
@@ -243,8 +244,9 @@ prop(
     "C04",
     level="other",
     design_ref="DESIGN.md section 3, C04",
-    groups=[(_PIPE, r"^(\(\*eventPool\)\.wakeupWaiters|\(\*lowMemoryEventPool\)\.(wakeupWaiters|back|eventsAvailable)|\(\*stream\)\.(put|tryDetach|tryUnblock)|\(\*streamer\)\.(makeCharged|makeBlocked|resetBlocked)|\(\*Batch\)\.updateStatus|\(\*Batcher\)\.(heartbeat|work))$")],
-    canaries=[("./pipeline", "replay/C04/zz_replay_c04_test.go", "TestVerifReplayC04")],
+    groups=[(_PIPE, r"^(\(\*eventPool\)\.wakeupWaiters|\(\*lowMemoryEventPool\)\.(wakeupWaiters|back|eventsAvailable)|\(\*stream\)\.(put|tryDetach|tryUnblock)|\(\*streamer\)\.(makeCharged|makeBlocked|resetBlocked|isBlocked)|\(\*Batch\)\.updateStatus|\(\*Batcher\)\.(heartbeat|work))$")],
+    canaries=[("./pipeline", "replay/C04/zz_replay_c04_test.go", "TestVerifReplayC04"),
+              ("./pipeline", "replay/C04/zz_stale_heartbeat_snapshot_test.go", "TestVerifStaleHeartbeatSnapshot")],
     claim=(
         "The must-signal / must-flush rules the no-wedge property rests on, as proved per-iteration and per-call contracts: both pool heartbeats broadcast in every iteration in which readers wait and capacity is free (and only then); "
         "low-memory back() releases its unit and then broadcasts; stream.put charges an unowned empty stream and signals a blocked owner exactly once; tryDetach re-charges a released stream that still has events; "
@@ -283,9 +285,13 @@ prop(
     "C14",
     level="other",
     design_ref="DESIGN.md section 3, C14",
-    groups=[(["./pipeline/doif"], r"^(\(\*logicalNode\)\.Check|NewLogicalNode|NewFieldOpNode|\(\*fieldOpNode\)\.Check|\(\*lenCmpOpNode\)\.Check)$"),
+    groups=[(["./pipeline/doif"], r"^(\(\*logicalNode\)\.Check|NewLogicalNode|NewFieldOpNode|\(\*fieldOpNode\)\.Check|\(\*lenCmpOpNode\)\.Check|\(\*tsCmpOpNode\)\.Check|getNodeBytesSize|getNodeFieldsBytesSize)$"),
+            (["./fd"], r"^extractConditions$"),
             (["./pipeline"], r"^(\(\*processor\)\.(isMatch|isMatchOr|isMatchAnd)|\(\*MatchCondition\)\.valueExists)$")],
-    canaries=[("./pipeline", "replay/C14/zz_replay_c14_test.go", "TestVerifReplayC14")],
+    canaries=[("./pipeline", "replay/C14/zz_replay_c14_test.go", "TestVerifReplayC14"),
+              ("./pipeline/doif", "replay/C14/zz_byte_len_empty_container_test.go", "TestVerifDoIfByteLenEmptyContainer"),
+              ("./pipeline/doif", "replay/C14/zz_ts_cmp_range_test.go", "TestVerifDoIfTsCmpOutsideUnixNanoRange"),
+              ("./fd", "replay/C14/zz_match_fields_dropped_test.go", "TestVerifMatchFieldsNonStringDropped")],
     claim=(
         "Proved for all operand lists, value lists and events, with each leaf test an uninterpreted deterministic predicate: logical nodes compute exactly or = some operand holds, and = all operands hold, not = negation of its operand "
         "(independent of short-circuiting and operand order; NewLogicalNode guarantees an operand exists); legacy match_fields: valueExists is 'some listed value equals / is a prefix of the value', "
